@@ -230,6 +230,12 @@ class ResponseHeader(Struct):
                     kmip_version=kmip_version
                 )
 
+        if self.server_correlation_value is not None:
+            self.server_correlation_value.write(
+                tstream,
+                kmip_version=kmip_version
+            )
+
         self.batch_count.write(tstream, kmip_version=kmip_version)
 
         # Write the length and value of the request header
